@@ -138,8 +138,12 @@ func c04(r *core.Run) {
 	c04Succ(r)
 	c04Sentinel(r)
 	c04Ops(r)
+	c04Conj(r)
 	c04Equiv(r)
 	c04Pres(r)
+	// a change is visible to the structural matching only as an instruction left unpaired: the pairing must be
+	// one-to-one (the map discipline of the zipper, shared with C09)
+	r.Under("C09.MAPS", "C04.MAPS", func() { c09Maps(r) })
 	c03GateComm(r, "C04.COMMZ")
 	// 'preserved' by fingerprint equality rests on the normalisations not merging different behaviour
 	c03GateSwap(r, "C04.SWAPGATE")
@@ -708,4 +712,174 @@ func c04BlockMap(r *core.Run) {
 		}
 	}
 	r.Floor("C04.SUCC", "block correspondence built from matched instructions", n, 1)
+}
+
+// c04Conj: in the comparator, instruction equivalence is the CONJUNCTION of its attribute equalities: once one
+// attribute of the two instructions is found different, "equivalent" is no longer a possible result — whatever
+// the other attributes say. Decided per two-sided comparison c (x.F == y.F, x.M() == y.M(), types.Identical(x.T,
+// y.T) with x, y the two instructions): starting in c's block with c taken as "different", no return can yield
+// true (a constant true, or another comparison whose outcome is open).
+func c04Conj(r *core.Run) {
+	p := r.P
+	n := 0
+	for _, fn := range p.FuncsIn("pkg/diff") {
+		rt := resultTypes(fn)
+		if len(rt) != 1 || rt[0].String() != "bool" || fn.Blocks == nil {
+			continue
+		}
+		// two parameters of one SSA type (instruction / call) besides an optional receiver
+		var ps []*ssa.Parameter
+		for _, pa := range fn.Params {
+			if strings.Contains(pa.Type().String(), ssaPkgPath) {
+				ps = append(ps, pa)
+			}
+		}
+		if len(ps) != 2 || !types.Identical(ps[0].Type(), ps[1].Type()) {
+			continue
+		}
+		side := func(v ssa.Value) int {
+			// which parameter the value is read from (0, 1) or -1
+			seen := map[ssa.Value]bool{}
+			res := -1
+			var walk func(v ssa.Value, d int)
+			walk = func(v ssa.Value, d int) {
+				if v == nil || seen[v] || d > 10 {
+					return
+				}
+				seen[v] = true
+				for i, pa := range ps {
+					if v == ssa.Value(pa) {
+						if res == -1 {
+							res = i
+						} else if res != i {
+							res = -2
+						}
+						return
+					}
+				}
+				if in, ok := v.(ssa.Instruction); ok {
+					for _, op := range in.Operands(nil) {
+						if op != nil && *op != nil {
+							walk(*op, d+1)
+						}
+					}
+				}
+			}
+			walk(v, 0)
+			return res
+		}
+		type cmpv struct {
+			v       ssa.Value
+			equalOn bool // the value is true when the attribute is equal
+		}
+		var cmps []cmpv
+		core.InstrsOf(fn, func(in ssa.Instruction) {
+			switch x := in.(type) {
+			case *ssa.BinOp:
+				if x.Op != token.EQL && x.Op != token.NEQ {
+					return
+				}
+				a, b := side(x.X), side(x.Y)
+				if a >= 0 && b >= 0 && a != b {
+					cmps = append(cmps, cmpv{x, x.Op == token.EQL})
+				}
+			case *ssa.Call:
+				if core.CalleeName(&x.Call) == "go/types.Identical" && len(x.Call.Args) == 2 {
+					a, b := side(x.Call.Args[0]), side(x.Call.Args[1])
+					if a >= 0 && b >= 0 && a != b {
+						cmps = append(cmps, cmpv{x, true})
+					}
+				}
+			}
+		})
+		if len(cmps) < 3 {
+			continue
+		}
+		isCmp := map[ssa.Value]bool{}
+		for _, c := range cmps {
+			isCmp[c.v] = true
+		}
+		for _, c := range cmps {
+			n++
+			type st struct{ b, prev *ssa.BasicBlock }
+			start := st{c.v.(ssa.Instruction).Block(), nil}
+			seen := map[st]bool{start: true}
+			work := []st{start}
+			bad := ""
+			var badPos token.Pos
+			valueAt := func(v ssa.Value, s st) ssa.Value {
+				for d := 0; d < 4; d++ {
+					ph, ok := v.(*ssa.Phi)
+					if !ok || ph.Block() != s.b || s.prev == nil {
+						return v
+					}
+					for i, pb := range s.b.Preds {
+						if pb == s.prev {
+							v = ph.Edges[i]
+						}
+					}
+				}
+				return v
+			}
+			for len(work) > 0 && bad == "" {
+				s := work[len(work)-1]
+				work = work[:len(work)-1]
+				last := s.b.Instrs[len(s.b.Instrs)-1]
+				switch x := last.(type) {
+				case *ssa.Return:
+					v := valueAt(x.Results[0], s)
+					base, neg := core.StripNot(v)
+					switch {
+					case base == c.v:
+						// the comparison itself: "different" ⇒ false (or its negation ⇒ would be true)
+						if c.equalOn == neg {
+							bad, badPos = "the negated comparison is returned", x.Pos()
+						}
+					default:
+						if k, isC := base.(*ssa.Const); isC && k.Value != nil {
+							if (k.Value.String() == "true") != neg {
+								bad, badPos = "true is returned", x.Pos()
+							}
+						} else {
+							bad, badPos = "the result is left to "+core.Canon(base), x.Pos()
+						}
+					}
+				case *ssa.If:
+					cond := valueAt(x.Cond, s)
+					base, neg := core.StripNot(cond)
+					for i, sb := range s.b.Succs {
+						if base == c.v {
+							// c "different": value = !equalOn; the condition = value xor neg
+							val := !c.equalOn != neg
+							if (i == 0) != val {
+								continue
+							}
+						}
+						if k, isC := base.(*ssa.Const); isC && k.Value != nil {
+							val := (k.Value.String() == "true") != neg
+							if (i == 0) != val {
+								continue
+							}
+						}
+						ns := st{sb, s.b}
+						if !seen[ns] {
+							seen[ns] = true
+							work = append(work, ns)
+						}
+					}
+				default:
+					for _, sb := range s.b.Succs {
+						ns := st{sb, s.b}
+						if !seen[ns] {
+							seen[ns] = true
+							work = append(work, ns)
+						}
+					}
+				}
+			}
+			r.Check(bad == "", "C04.CONJ", core.FuncName(fn)+"#"+core.Canon(c.v), c.v.Pos(), "once this attribute differs the comparator cannot answer 'equivalent'", "with this attribute different the comparator can still answer 'equivalent' ("+bad+"): attribute equalities are combined by 'or' / a later test overrides an earlier difference, so two instructions that differ in this attribute are paired and the change is reported as preserved")
+			_ = badPos
+		}
+	}
+	r.Floor("C04.CONJ", "two-sided attribute comparisons in the comparators", n, 10)
 }
